@@ -105,19 +105,20 @@ Section Main.
     assert (Hpre : forall l, l < nl -> nth l (pre_holds sc) raw_free = w_raw w0 l).
     { intros l Hl. unfold pre_holds. fold nl w0. now apply nth_snapshot_holds. }
     assert (Hprog2 : api_prog e (h_loc h1 t) (AAcquire c m FTry) =
-              Some (Bind (Catch (raw_try m (alg_of (e_am e) s)) keydrop)
+              Some (with_key true false (Bind (raw_try m (alg_of (e_am e) s))
                          (fun v => if vtrue v then see_all (gpoisons (gitems s)) ;; poison_result s
-                                   else Ret (VNat 1)))).
+                                   else Ret (VNat 1))))).
     { unfold h1. cbn [h_loc]. rewrite upd_same. cbn [api_prog haskey]. rewrite Hcoll. reflexivity. }
     destruct (can_all m (kleaves s) (w_raw w0)) eqn:Can.
     - (* every leaf available: Ok, all held, drop restores *)
       destruct (run_see_all t (gpoisons (gitems s)) w2) as [w3 [R3 E3]].
       assert (P3 : forall p, w_psn w3 p = false).
       { intros p. rewrite (eff_psn _ _ _ E3), (eff_psn _ _ _ E2). reflexivity. }
-      assert (Rcall2 : run nopw t (Bind (Catch (raw_try m (alg_of (e_am e) s)) keydrop)
+      assert (Rcall2 : run nopw t (with_key true false (Bind (raw_try m (alg_of (e_am e) s))
                          (fun v => if vtrue v then see_all (gpoisons (gitems s)) ;; poison_result s
-                                   else Ret (VNat 1))) (clear_trace (h_w h1)) = (ODone (VNat 0), w3)).
-      { rewrite run_bind. unfold h1. cbn [h_w]. rewrite (run_catch_done _ _ _ _ _ _ _ R2). cbn [vtrue].
+                                   else Ret (VNat 1)))) (clear_trace (h_w h1)) = (ODone (VNat 0), w3)).
+      { apply (run_with_key_done nopw t true false _ _ (VNat 0) w3).
+        unfold h1. cbn [h_w]. rewrite (run_bind_done _ _ _ _ _ _ _ R2). cbn [vtrue].
         rewrite (run_then_done _ _ _ _ _ _ _ R3). now apply run_poison_result. }
       pose proof (hstep_some e nl np h1 t _ _ _ _ eq_refl Hprog2 Rcall2) as S2.
       rewrite (api_fin_try_ok e _ c m s Hcoll) in S2. cbn [fst snd stops] in S2.
@@ -134,12 +135,11 @@ Section Main.
         - intros x _. apply (eff_raw _ _ _ E23). }
       destruct (run_drop_items t m (gitems s) (clear_trace w3) Q3 NDk H3) as [w4 [R4 E4]].
       assert (Hprog3 : api_prog e (h_loc h2 t) AGuardDrop =
-                Some (Catch (drop_items m false (gitems s)) keydrop ;; keydrop)).
+                Some (with_key true true (drop_items m false (gitems s)))).
       { unfold h2. cbn [h_loc]. rewrite upd_same. reflexivity. }
-      assert (Rcall3 : run nopw t (Catch (drop_items m false (gitems s)) keydrop ;; keydrop) (clear_trace (h_w h2))
+      assert (Rcall3 : run nopw t (with_key true true (drop_items m false (gitems s))) (clear_trace (h_w h2))
                        = (ODone VUnit, set_keyf w4 t false)).
-      { unfold h2. cbn [h_w]. rewrite (run_then_done _ _ _ _ _ VUnit w4); [reflexivity|].
-        apply (run_catch_done _ _ _ _ _ _ _ R4). }
+      { unfold h2. cbn [h_w]. apply (run_with_key_done nopw t true true _ _ _ _ R4). }
       pose proof (hstep_some e nl np h2 t _ _ _ _ eq_refl Hprog3 Rcall3) as S3.
       rewrite (hrun3 _ _ _ _ _ _ _ _ _ _ _ _ _ S1 S2 S3).
       unfold mon_C13. rewrite Hh, Hc. rewrite (expect_eq (pre_holds sc) (w_raw w0) Hpre), Can.
@@ -156,10 +156,11 @@ Section Main.
       + symmetry. apply rel_acq_all; [rewrite <- leaves_kleaves; exact Hnd|exact Can].
       + intros y. apply (eff_raw _ _ _ E23).
     - (* some leaf unavailable: WouldBlock, nothing changed *)
-      assert (Rcall2 : run nopw t (Bind (Catch (raw_try m (alg_of (e_am e) s)) keydrop)
+      assert (Rcall2 : run nopw t (with_key true false (Bind (raw_try m (alg_of (e_am e) s))
                          (fun v => if vtrue v then see_all (gpoisons (gitems s)) ;; poison_result s
-                                   else Ret (VNat 1))) (clear_trace (h_w h1)) = (ODone (VNat 1), w2)).
-      { rewrite run_bind. unfold h1. cbn [h_w]. rewrite (run_catch_done _ _ _ _ _ _ _ R2). reflexivity. }
+                                   else Ret (VNat 1)))) (clear_trace (h_w h1)) = (ODone (VNat 1), w2)).
+      { apply (run_with_key_done nopw t true false _ _ (VNat 1) w2).
+        unfold h1. cbn [h_w]. rewrite (run_bind_done _ _ _ _ _ _ _ R2). reflexivity. }
       pose proof (hstep_some e nl np h1 t _ _ _ _ eq_refl Hprog2 Rcall2) as S2.
       cbn [api_fin fst snd stops] in S2.
       match type of S2 with _ = (?hh, _) => set (h2 := hh) in * end.
